@@ -1,4 +1,4 @@
-import IofloModel.Model.Pid
+import IofloModel.Model.PidTyped
 import IofloModel.Drv.Proto
 /-!
 driver for the PID controller model (engine `pid`), stateful; the arithmetic is the binary64
@@ -37,13 +37,31 @@ def showNum : Num → String
 def showState (s : State) : String :=
   " ".intercalate ([s.lapse, s.elapsed, s.prsp, s.e, s.er, s.es, s.out].map showNum)
 
+/-- typed number token: `i:`/`q:`/`f:` + number (int/bool, Fraction, float) -/
+def tnum? (s : String) : Option TNum :=
+  match s.splitOn ":" with
+  | [k, v] => do
+      let v ← num? v
+      if k == "i" then pure ⟨v, .int⟩ else if k == "q" then pure ⟨v, .frac⟩
+      else if k == "f" then pure ⟨v, .float⟩ else none
+  | _ => none
+
+def tstamp? (s : String) : Option (Option TNum) :=
+  if s == "none" then some none else (tnum? s).map some
+
+def showStateT (s : StateT) : String :=
+  " ".intercalate ([s.lapse, s.elapsed, s.prsp, s.e, s.er, s.es, s.out].map (fun t => showNum t.v))
+
 structure St where
   p : Parm
   f : State          -- binary64 arithmetic
   x : State          -- exact arithmetic
+  tp : ParmT         -- typed model (tparm / tupd / trestart / treset)
+  t : StateT
 
 def parm0 : Parm := ⟨.fin 0, .fin 0, true, .fin 0, .fin 0, .fin 0, .fin 0, .fin 0, .fin 0, .fin 0, .fin 0, .fin 0⟩
-def st0 : St := ⟨parm0, init, init⟩
+def tz : TNum := TNum.zero
+def st0 : St := ⟨parm0, init, init, ⟨tz, tz, true, tz, tz, tz, tz, tz, tz, tz, tz, tz⟩, initT⟩
 
 def flag? (s : String) : Option Bool :=
   if s == "1" then some true else if s == "0" then some false else none
@@ -51,6 +69,25 @@ def flag? (s : String) : Option Bool :=
 def step (σ : St) (line : String) : St × String :=
   match words line with
   | ["reset"] => ({ σ with f := init, x := init }, "ok")
+  | ["treset"] => ({ σ with t := initT }, "ok")
+  | ["trestart"] => let s := restartT σ.t; ({ σ with t := s }, showStateT s)
+  | ["tparm", wrap, drsp, cr, ger, gff, gpe, gde, gie, esmax, esmin, ovmax, ovmin] =>
+    match (do
+      let wrap ← tnum? wrap; let drsp ← tnum? drsp; let cr ← flag? cr; let ger ← tnum? ger
+      let gff ← tnum? gff; let gpe ← tnum? gpe; let gde ← tnum? gde; let gie ← tnum? gie
+      let esmax ← tnum? esmax; let esmin ← tnum? esmin; let ovmax ← tnum? ovmax; let ovmin ← tnum? ovmin
+      pure (ParmT.mk wrap drsp cr ger gff gpe gde gie esmax esmin ovmax ovmin)) with
+    | some p => ({ σ with tp := p }, "ok")
+    | none => (σ, "bad-op")
+  | ["tupd", st, i, r, sp] =>
+    match (do
+      let st ← tstamp? st; let i ← tnum? i; let r ← tnum? r; let sp ← tnum? sp
+      pure (st, i, r, sp)) with
+    | none => (σ, "bad-op")
+    | some (st, i, r, sp) =>
+      match actionT σ.t st i r sp σ.tp with
+      | .ok s => ({ σ with t := s }, showStateT s)
+      | .error _ => (σ, "ERR ZeroDivisionError")
   | ["parm", wrap, drsp, cr, ger, gff, gpe, gde, gie, esmax, esmin, ovmax, ovmin] =>
     match (do
       let wrap ← num? wrap; let drsp ← num? drsp; let cr ← flag? cr; let ger ← num? ger
